@@ -93,6 +93,7 @@ func (v *Verifier) callCommon(s *State, c *ssa.CallCommon, fv *Value, args []*Va
 				return v.applyCallback(s, cb, c, args, pos)
 			}
 			v.trusted["<dynamic func value> "+c.Value.Name()+" in "+funcRef(s.frame.fn)] = true
+			v.havocPointeesPolicy(s, args, true)
 			return v.havocResult(s, resultType(c), "dyn")
 		}
 	}
@@ -118,6 +119,7 @@ func (v *Verifier) callCommon(s *State, c *ssa.CallCommon, fv *Value, args []*Va
 	if fc := v.contracts.forFunc(callee); fc != nil && callee == v.top && fc.hasCallContract() {
 		// recursive call of the function under verification: use its contract + decreases
 		v.byContract[funcRef(callee)+" (recursive)"] = true
+		v.recursionMeasure(s, fc, callee, fullArgs, pos)
 		return v.applyContract(s, fc, callee.Signature, fullArgs, pos, resultType(c), funcRef(callee))
 	}
 	if callee.Blocks != nil && v.canInline(s, callee) {
@@ -213,7 +215,31 @@ func (v *Verifier) havocResult(s *State, rt types.Type, hint string) *Value {
 	r := freshValue("ret!"+hint, rt)
 	s.bumpWM()
 	s.assumeAllocated(r)
+	v.errConvention(s, r)
 	return r
+}
+
+// errConvention: for results of shape (..., error) from callees without contract, assume the Go convention
+// that pointer / interface / map results are non-nil when the error is nil.
+func (v *Verifier) errConvention(s *State, r *Value) {
+	tu, ok := r.T.(*types.Tuple)
+	if !ok || tu.Len() < 2 {
+		return
+	}
+	last := tu.At(tu.Len() - 1).Type()
+	if !isIface(last) || typeName(last) != "error" {
+		return
+	}
+	lo, _ := tupleRange(tu, tu.Len()-1)
+	errNil := Eq(r.L[lo], Int(0))
+	for i := 0; i < tu.Len()-1; i++ {
+		t := tu.At(i).Type()
+		if isPointer(t) || isIface(t) || isMap(t) {
+			a, _ := tupleRange(tu, i)
+			s.assume(Implies(errNil, Gt(r.L[a], Int(0))))
+			v.assumptions["callees without contract follow the Go convention: err == nil implies non-nil pointer/interface/map results"] = true
+		}
+	}
 }
 
 func (v *Verifier) havocCall(s *State, callee *ssa.Function, c *ssa.CallCommon, args []*Value, pos token.Pos) *Value {
@@ -231,7 +257,11 @@ func (v *Verifier) havocCall(s *State, callee *ssa.Function, c *ssa.CallCommon, 
 }
 
 // havocPointees: an external callee may write through pointer / slice arguments (shallow).
-func (v *Verifier) havocPointees(s *State, args []*Value) {
+func (v *Verifier) havocPointees(s *State, args []*Value) { v.havocPointeesPolicy(s, args, false) }
+
+// havocPointeesPolicy: with dynamic==true (callbacks / interface methods / func values) module structs reachable from
+// pointer arguments are assumed unmodified (listed assumption); buffers and non-struct pointees are still havoc'd.
+func (v *Verifier) havocPointeesPolicy(s *State, args []*Value, dynamic bool) {
 	for _, a := range args {
 		if a == nil {
 			continue
@@ -248,7 +278,7 @@ func (v *Verifier) havocPointees(s *State, args []*Value) {
 				continue
 			}
 			if isStruct(et) {
-				if isModuleType(et) {
+				if isModuleType(et) && !dynamic {
 					s.storeStruct(a.L[0], et, freshValue("ext!"+typeName(et), et))
 				}
 			} else {
@@ -265,7 +295,7 @@ func (v *Verifier) havocPointees(s *State, args []*Value) {
 			// dynamic pointer inside an interface: havoc if it is a known pointer type to a module struct
 			if a.L[0].isInt() {
 				if ct, ok := typeIDTypes[a.L[0].ival.Int64()]; ok {
-					if p, ok := under(ct).(*types.Pointer); ok && isStruct(p.Elem()) && isModuleType(p.Elem()) {
+					if p, ok := under(ct).(*types.Pointer); ok && isStruct(p.Elem()) && isModuleType(p.Elem()) && !dynamic {
 						s.storeStruct(a.L[1], p.Elem(), freshValue("ext!"+typeName(p.Elem()), p.Elem()))
 					}
 				}
@@ -291,7 +321,7 @@ func (v *Verifier) callInterface(s *State, c *ssa.CallCommon, recv *Value, args 
 		return v.applyContractNamed(s, fc, sig, full, pos, resultType(c), key, true)
 	}
 	v.trusted["<interface> "+key] = true
-	v.havocPointees(s, args)
+	v.havocPointeesPolicy(s, args, true)
 	return v.havocResult(s, resultType(c), key)
 }
 
@@ -366,6 +396,14 @@ func (v *Verifier) applyContractNamed(s *State, fc *FuncContract, sig *types.Sig
 				if n := rs.At(k).Name(); n != "" {
 					env[n] = sub
 				}
+			}
+		}
+		if rs := sig.Results(); rs.Len() >= 1 && rs.At(rs.Len()-1).Name() == "" && typeName(rs.At(rs.Len()-1).Type()) == "error" {
+			if rs.Len() == 1 {
+				env["err"] = res
+			} else {
+				lo, hi := tupleRange(rs, rs.Len()-1)
+				env["err"] = res.sub(lo, hi, rs.At(rs.Len()-1).Type())
 			}
 		}
 		if fc.ResultNames != nil {
@@ -526,9 +564,9 @@ func (v *Verifier) doAppend(s *State, dst, src *Value, pos token.Pos) *Value {
 		j := BoundVar("j!app", SInt)
 		// in-place case: na agrees with oldDst outside [off+len, off+len+k), and equals src inside
 		base := rOff
-		elemAt := Select(na, Add(base, j))
-		fromDst := Select(oldDst, Add(dst.sOff(), j))
-		fromSrc := Select(srcArr, Add(srcOff, Sub(j, dst.sLen())))
+		elemAt := Select(na, Elt(base, j))
+		fromDst := Select(oldDst, Elt(dst.sOff(), j))
+		fromSrc := Select(srcArr, Elt(srcOff, Sub(j, dst.sLen())))
 		body := Implies(And(Le(Int(0), j), Lt(j, newLen)), Eq(elemAt, Ite(Lt(j, dst.sLen()), fromDst, fromSrc)))
 		s.assume(Forall([]*Term{j}, body, []*Term{elemAt}))
 		// frame for in-place: indices outside the appended window keep old contents
@@ -926,9 +964,9 @@ func (v *Verifier) collectMods(ins ssa.Instruction, cells map[*ssa.Alloc]bool, h
 					v.modsetInto(anon, cells, heap, visiting)
 				}
 			}
-			// pointer / slice args may be written
+			// pointer / slice args may be written (module structs assumed untouched by dynamic callees)
 			for _, a := range c.Args {
-				v.modArg(a.Type(), heap)
+				v.modArgPolicy(a.Type(), heap, true)
 			}
 			return
 		}
@@ -970,11 +1008,13 @@ func (v *Verifier) modsetInto(callee *ssa.Function, cells map[*ssa.Alloc]bool, h
 	}
 }
 
-func (v *Verifier) modArg(t types.Type, heap map[string]Sort) {
+func (v *Verifier) modArg(t types.Type, heap map[string]Sort) { v.modArgPolicy(t, heap, false) }
+
+func (v *Verifier) modArgPolicy(t types.Type, heap map[string]Sort, dynamic bool) {
 	switch u := under(t).(type) {
 	case *types.Pointer:
 		if isStruct(u.Elem()) {
-			if isModuleType(u.Elem()) {
+			if isModuleType(u.Elem()) && !dynamic {
 				addStructKeys(heap, u.Elem())
 			}
 		} else {
@@ -1084,3 +1124,29 @@ func isElemRoot(x ssa.Value) bool {
 		}
 	}
 }
+
+
+// recursionMeasure emits the termination obligation of a recursive call of the function under verification.
+func (v *Verifier) recursionMeasure(s *State, fc *FuncContract, callee *ssa.Function, args []*Value, pos token.Pos) {
+	if !fc.Terminates {
+		return
+	}
+	if fc.Decreases == nil {
+		v.addOb(s, "dec", pos, False, "recursive call of "+funcRef(callee)+" without a decreasing measure", fc.Decreases2Props())
+		return
+	}
+	// measure at entry (entry args, entry heap) and at the call (call args, current heap)
+	e0 := &Eval{v: v, st: v.entry, old: v.entry, env: map[string]*Value{}, mode: evalPre, fn: callee, fc: fc, pkg: fnPkg(callee)}
+	m0 := e0.intExpr(fc.Decreases.Expr)
+	env := map[string]*Value{}
+	for i, p := range callee.Params {
+		if i < len(args) {
+			env[p.Name()] = args[i]
+		}
+	}
+	e1 := &Eval{v: v, st: s, old: s, env: env, mode: evalCall, fc: fc, pkg: fnPkg(callee)}
+	m1 := e1.intExpr(fc.Decreases.Expr)
+	v.addOb(s, "dec", pos, And(Le(Int(0), m0), Lt(m1, m0)), "decreases "+fc.Decreases.Text, fc.Decreases.Props)
+}
+
+func (fc *FuncContract) Decreases2Props() []string { return nil }
